@@ -2,7 +2,7 @@
 """Generates /verif/MANIFEST.json from the table below (single source of truth)."""
 import json, subprocess, os
 
-REPO_HOOK_COMMITS = ["8efe976"]
+REPO_HOOK_COMMITS = ["8efe976", "ca48528"]
 
 # id -> (category, technique, level text, level note, design ref)
 CHECKS = {
@@ -57,6 +57,31 @@ CHECKS = {
    "All sequences of up to 3 (thorough 4) layers out of a menu of 39 on top of a base file are replayed on the real builder; the model predicts for each sequence whether it must be rejected and otherwise the exact units (key lists after before/after/override layering and SI re-expansion), best lists and default system; the built converter must agree and satisfy the index invariants; no build may panic. The default converter is compared with one built from units.toml.",
    "Fraction settings are only checked through behaviour (fit/convert on a grid) because the configuration is not publicly observable. Acceptance that depends on hash-map iteration order is counted, not flagged.",
    "DESIGN.md 5/C16"),
+ "C08": ("model_checking",
+   "exhaustive enumeration of a finite product of recipe specs (written value x unit x lock x component kind x reference kind x servings declaration) x configurations x factors; the generator's knowledge of what was written is the reference model, every prediction is compared with the real scale / default_scale / scale_to_servings",
+   "Each spec is printed to source, parsed by the real parser and scaled by 9 factors and 3 serving targets under 4 configurations; the amount law (value incl. fraction error x unit factor from an independent SI table) is checked per component, everything else must be byte-identical in the JSON image, outcome vectors must line up and name the case, default scaling must return the written value and unit, scale_to_servings(n) must equal scale(n / first).",
+   "Factors are 9 representative finite positive values, not all doubles. Specs that are not valid under a configuration are outside the property and skipped (counted in the evidence).",
+   "DESIGN.md 5/C08"),
+ "C10": ("model_checking",
+   "explicit-state breadth-first search (stateright) over the real GroupedQuantity with canonical-state de-duplication and a reference sum model carried alongside; plus exhaustive enumeration of recipes, recipe sequences and aisle configurations against a reference semantics",
+   "(a) BFS over add(18 quantities) / merge(6 groups) / fit to depth 5 (thorough 6): in every reached state the per-class totals equal the reference sums and texts are kept. (b) every recipe of up to 4 (5) ingredient atoms and every sequence of up to 2 (3) recipes: group_ingredients and IngredientList agree with the reference semantics. (c) every list x every aisle configuration over 4 names: categorize conserves totals.",
+   "State merging uses the whole observable state (sorted where unordered) + reference sums + depth, so merged states have equal futures. Temperature is excluded from the sum law. Known finding D7 (categorize with listed synonyms) is recorded in known_findings.json.",
+   "DESIGN.md 5/C10"),
+ "C15": ("model_checking",
+   "bounded-exhaustive enumeration of recipes (component sequences, written value x unit strings, front-matter documents, corpus edits) each taken through 13 serialize/deserialize round trips (scalable + 4 scalings x 3 conversions) on the real serde implementations",
+   "Every enumerated recipe with output is serialized, deserialized, compared (== / field by field) and re-serialized byte-identically, before scaling and after each of 4 scalings x {unconverted, metric, imperial}.",
+   "Restricted to finite numbers and JSON-representable YAML (string keys, no tags). serde_json with float_roundtrip.",
+   "DESIGN.md 5/C15"),
+ "C18": ("model_checking",
+   "depth-bounded exhaustive enumeration of call histories on a shared parser against fresh-process references, and stateless preemption-bounded (iterative context bounding) exploration of all interleavings of real threads sharing one parser, scheduling points at every token and event via the cfg hook",
+   "Histories: all sequences of up to 3 (4) calls over 8 inputs that touch every piece of per-parse state, on a shared instance, a clone and a new instance in one process; each observation (recipe, ordered diagnostics, metadata-only parse, scaled+converted recipe) must equal the one from a fresh subprocess. Schedules: all schedules with at most 2 (3) preemptions of 2-3 real threads running 1-2 parses each; replay of a failing schedule must reproduce it.",
+   "Threads are serialised and switch only at hook points and thread exit; weak-memory effects and races inside one token's processing are not explored. loom / shuttle cannot drive this crate (it uses std Arc / LazyLock directly).",
+   "DESIGN.md 5/C18"),
+ "C19": ("model_checking",
+   "bounded-exhaustive enumeration of canonically valid inputs x factors compared with the core recipe as reference model, and of all ingredient lists up to n over a menu with every permutation and selection compared with per-key reference sums, on the real bindings code",
+   "Mirror: all strings up to 4 (5) symbols over a canonical component alphabet, the token alphabet and corpus edits that the canonical parser accepts, x 3 factors. Combine: all multisets of up to 4 (5) ingredients out of 26 colliding on two names, in every order and with every selection.",
+   "The bindings sources are compiled as an rlib through /verif/harness/bindings-shim (same files, current working tree); Amount fields are read and built through the cfg(cooklang_verif) hook.",
+   "DESIGN.md 5/C19"),
 }
 
 PENDING = {
